@@ -88,7 +88,14 @@ func (c *c17Case) run() error {
 		cl, idx int
 	}
 	var late []lateView
-	record := func(ctx context.Context, id string) (cl, e int, echo string, ok bool) {
+	// delegate node that client cl puts into the pp of what it sends (clients 1, 2 mod 3 only)
+	ppOf := func(cl int) lime.Node {
+		if cl%3 == 0 {
+			return lime.Node{}
+		}
+		return lime.Node{Identity: lime.Identity{Name: fmt.Sprintf("dlg%d", cl), Domain: "verif.test"}, Instance: "d"}
+	}
+	record := func(ctx context.Context, id string, pp lime.Node) (cl, e int, echo string, ok bool) {
 		// envelope ids are "c<client>-<number>"
 		parts := strings.Split(strings.TrimPrefix(id, "c"), "-")
 		if len(parts) != 2 {
@@ -101,7 +108,13 @@ func (c *c17Case) run() error {
 		rem, _ := lime.ContextSessionRemoteNode(ctx)
 		mu.Lock()
 		if cl >= 0 && cl < n {
-			inLog[cl] = append(inLog[cl], [4]int{in.tok(sid), in.tok(loc.String()), in.tok(rem.String()), e})
+			remTok := in.tok(rem.String())
+			if pp != ppOf(cl) {
+				// the envelope arrived with a delegation node its sender did not put there (or lost the one it did)
+				remTok = in.tok("foreign-pp:" + pp.String())
+				c.Note = "an envelope was dispatched with another sender's addressing"
+			}
+			inLog[cl] = append(inLog[cl], [4]int{in.tok(sid), in.tok(loc.String()), remTok, e})
 			if len(late) < 400 {
 				late = append(late, lateView{ctx: ctx, cl: cl, idx: len(inLog[cl]) - 1})
 			}
@@ -124,7 +137,7 @@ func (c *c17Case) run() error {
 	}
 	mux := &lime.EnvelopeMux{}
 	mux.MessageHandlerFunc(nil, func(ctx context.Context, msg *lime.Message, s lime.Sender) error {
-		_, e, echo, ok := record(ctx, msg.ID)
+		_, e, echo, ok := record(ctx, msg.ID, msg.PP)
 		if !ok {
 			return nil
 		}
@@ -138,7 +151,7 @@ func (c *c17Case) run() error {
 		return nil
 	})
 	mux.RequestCommandHandlerFunc(nil, func(ctx context.Context, cmd *lime.RequestCommand, s lime.Sender) error {
-		_, e, echo, ok := record(ctx, cmd.ID)
+		_, e, echo, ok := record(ctx, cmd.ID, cmd.PP)
 		if !ok {
 			return nil
 		}
@@ -320,12 +333,12 @@ func (c *c17Case) run() error {
 				id := fmt.Sprintf("c%d-%d", i, s.e)
 				var err error
 				if i%2 == 0 {
-					m := &lime.Message{Envelope: lime.Envelope{ID: id}}
+					m := &lime.Message{Envelope: lime.Envelope{ID: id, PP: ppOf(i)}}
 					m.SetContent(lime.TextDocument("x"))
 					err = chans[i].SendMessage(ctx, m)
 				} else {
 					uri, _ := lime.ParseLimeURI("/c17")
-					err = chans[i].SendRequestCommand(ctx, &lime.RequestCommand{Command: lime.Command{Envelope: lime.Envelope{ID: id}, Method: lime.CommandMethodGet}, URI: uri})
+					err = chans[i].SendRequestCommand(ctx, &lime.RequestCommand{Command: lime.Command{Envelope: lime.Envelope{ID: id, PP: ppOf(i)}, Method: lime.CommandMethodGet}, URI: uri})
 				}
 				if err == nil && !finished {
 					expect += len(c17Replies(s.e))
